@@ -80,6 +80,35 @@ builtins.open = patched_open
 os.replace = patched_replace
 os.rename = patched_rename
 
+if mode.endswith("_limit"):
+    # an operating-system fault instead of a crash: the file system accepts only <crash_at> bytes per file (RLIMIT_FSIZE; a write beyond it is
+    # cut short, then fails with EFBIG) -- a full disk, a quota.  The save may fail; the file it replaces must stay whole.
+    import resource
+    import signal
+    signal.signal(signal.SIGXFSZ, signal.SIG_IGN)
+    builtins.open, os.replace, os.rename = real_open, real_replace, real_rename
+    if mode == "wallet_limit":
+        import skepticoin.wallet as W
+        w = W.Wallet.load(real_open("new_wallet_source.json"))
+        resource.setrlimit(resource.RLIMIT_FSIZE, (crash_at, crash_at))
+        try:
+            W.save_wallet(w)
+            os.write(1, b"SAVED\n")
+        except BaseException as e:      # noqa: B902
+            os.write(1, ("RAISED %r\n" % (e,)).encode())
+    else:
+        import skepticoin.networking.disk_interface as D
+
+        class P:
+            host, port, direction = "10.9.9.9", 2412, "OUTGOING"
+        di = D.DiskInterface.__new__(D.DiskInterface)
+        resource.setrlimit(resource.RLIMIT_FSIZE, (crash_at, crash_at))
+        try:
+            di.write_peers(P())
+            os.write(1, b"SAVED\n")
+        except BaseException as e:      # noqa: B902
+            os.write(1, ("RAISED %r\n" % (e,)).encode())
+    os._exit(0)
 if mode == "wallet":
     import skepticoin.wallet as W
     w = W.Wallet.load(real_open("new_wallet_source.json"))
